@@ -13,7 +13,9 @@
 #ifndef C01_ALT_MODEL_H
 #define C01_ALT_MODEL_H
 #include "../common.h"
+#ifndef NB
 #define NB 2              /* branches */
+#endif
 typedef long sid;
 typedef struct mscon { char dummy; } mscon;
 typedef struct pvec { sid d[NB]; unsigned long n; } pvec;
@@ -25,11 +27,16 @@ typedef struct pvec { sid d[NB]; unsigned long n; } pvec;
 #define PTR_ID(p) (p)
 #define PTR_BOOL(p) ((_Bool)((p) != 0))
 #define UPTR_IS_NULL(p, n) ((_Bool)(*(p) == 0))
+#define UPTR_NOT_NULL(p, n) ((_Bool)(*(p) != 0))
 #define VERIF_MOVE(p) (p)
 #define STACK_COPY(s) (M_ASSERT((s) != 0, "copy of a stack through a non-null pointer"), (s))
 static inline sid SID_TAKE(sid *p) { sid r = *p; *p = 0; return r; }
 #define SID_ASSIGN(lhs, rhs) (*(lhs) = *(rhs), (lhs))
 static inline pvec pvec_sized(unsigned long n) { pvec v; M_ASSERT(n <= NB, "branches fit"); v.n = n <= NB ? n : NB; for (unsigned i = 0; i < NB; ++i) v.d[i] = 0; return v; }
+#define PVEC_FRONT(v) (M_ASSERT((v)->n > 0, "front() of a non-empty vector"), &(v)->d[0])
+#define PVEC_BACK(v) (M_ASSERT((v)->n > 0, "back() of a non-empty vector"), &(v)->d[(v)->n > 0 && (v)->n <= NB ? (v)->n - 1 : 0])
+#define PVEC_SIZE(v) ((v)->n)
+#define PVEC_EMPTY(v) ((_Bool)((v)->n == 0))
 #define PVEC_BEGIN(v) (&(v)->d[0])
 #define PVEC_END(v) (&(v)->d[(v)->n <= NB ? (v)->n : NB])
 static inline sid *pvec_at(pvec *v, unsigned long i) { M_ASSERT(i < v->n && i < NB, "index within the vector"); return &v->d[i < NB ? i : 0]; }
